@@ -1,7 +1,10 @@
 package main
 
 import (
+	"fmt"
 	"strings"
+	"sync"
+	"sync/atomic"
 	"unicode/utf8"
 
 	"github.com/tailscale/setec/acl"
@@ -42,7 +45,9 @@ func traceACL(o opts) error {
 	}
 	// two more small alphabets, exhaustively: two letters (pieces that overlap themselves, so a
 	// matcher has to back up correctly) and backslash with the letters regexp escapes use
-	for _, ab := range [][2][]rune{{{'a', 'b', '*'}, {'a', 'b'}}, {{'\\', 'E', 'Q', '*', 'a'}, {'\\', 'E', 'Q', 'a'}}} {
+	extra := [][2][]rune{{{'a', 'b', '*'}, {'a', 'b'}}, {{'\\', 'E', 'Q', '*', 'a'}, {'\\', 'E', 'Q', 'a'}}, {{'%', 's', '(', '*', 'a'}, {'%', 's', '(', 'a'}}}
+	// each shard takes one of them (they do not depend on the seed otherwise)
+	for _, ab := range extra[int(o.seed)%len(extra) : int(o.seed)%len(extra)+1] {
 		var ps, ns []string
 		saved := alpha
 		alpha = ab[0]
@@ -101,6 +106,45 @@ func traceACL(o opts) error {
 			continue
 		}
 		emit("m\t%s\t%s\t%s", hx(p), hx(n), safeMatch(p, n))
+	}
+	// the same answers from many goroutines at once: several hundred distinct patterns evaluated
+	// concurrently, in different orders, must give what they give one at a time
+	{
+		type pn struct{ p, n string }
+		var cases []pn
+		for i := 0; i < 300; i++ {
+			cases = append(cases, pn{fmt.Sprintf("tenant-%d/*", i), fmt.Sprintf("tenant-%d/db", i)})
+			cases = append(cases, pn{fmt.Sprintf("ops/*/%d", i), fmt.Sprintf("tenant-%d/db", i)})
+			cases = append(cases, pn{fmt.Sprintf("*-%d/*", i), fmt.Sprintf("tenant-%d/db", (i+1)%300)})
+		}
+		want := make([]string, len(cases))
+		for i, c := range cases {
+			want[i] = safeMatch(c.p, c.n)
+		}
+		var mism atomic.Int64
+		var wg sync.WaitGroup
+		for g := 0; g < 8; g++ {
+			wg.Add(1)
+			go func() {
+				defer wg.Done()
+				for round := 0; round < 20; round++ {
+					for k := range cases {
+						i := (k*7 + g*131 + round*17) % len(cases)
+						if safeMatch(cases[i].p, cases[i].n) != want[i] {
+							mism.Add(1)
+						}
+					}
+				}
+			}()
+		}
+		wg.Wait()
+		emit("concmatch\tcases=%d\tmismatches=%d", len(cases), mism.Load())
+		// the sequential answers themselves go to the model like every other pair
+		for i, c := range cases {
+			if i%10 == 0 {
+				emit("m\t%s\t%s\t%s", hx(c.p), hx(c.n), want[i])
+			}
+		}
 	}
 	// rule-set shapes
 	acts := []string{"get", "info", "put", "activate", "delete", "bogus", ""}
